@@ -138,8 +138,9 @@ def run_property(pid, tier, seed):
             wt = wq.get()
             try:
                 lp = os.path.join(logdir, "batch_" + batch[0]["name"] + ".log")
+                tcap = int(os.environ.get("VERIF_HARNESS_TIMEOUT", "0")) or None
                 res, wall = kn.run_batch(sdir, wt, [h["name"] for h in batch], lp,
-                                         max(h.get("timeout", 900) for h in batch),
+                                         min(tcap, max(h.get("timeout", 900) for h in batch)) if tcap else max(h.get("timeout", 900) for h in batch),
                                          max(h.get("mem_kb", 24_000_000) for h in batch))
                 out = []
                 for h in batch:
